@@ -29,7 +29,7 @@ LOCAL, PEER = '10.0.0.1', '10.0.0.2'
 
 
 def counts(tier: str):
-    return (300, 75.0) if tier == 'quick' else (20000, 900.0)
+    return (900, 75.0) if tier == 'quick' else (20000, 900.0)
 
 
 def generate(rng, tier: str, index: int) -> dict:
@@ -58,6 +58,8 @@ def generate(rng, tier: str, index: int) -> dict:
         'final': rng.choice(['silent', 'silent', 'keepalive']), 'batch': rng.choice([0, 0, 10, 300, 2000]), 'stalls': stalls,
         'openwait': rng.choice([5, 8, 20]), 'open_delay': rng.choice([-1.0, -0.2, 0.3, 3.0]),
         'window_stall': rng.choice([0.0, 0.0, 0.5, 2.0]),
+        # the peer confirms the OPEN with its first KEEPALIVE only after this long (legal up to the hold time)
+        'ka_delay': round(rng.choice([0.0, 0.0, 0.0, 1.0, 0.4 * h, 0.6 * h]), 2) if h else 0.0,
     }  # fmt: skip
 
 
@@ -75,9 +77,22 @@ def execute(plan: dict) -> dict:
     }  # fmt: skip
     spk = Speaker(w, 'p1', PEER, 65002, PEER, LOCAL, hold=hs, caps=speaker_caps({'asn': 65002}))
     spk.periodic_keepalive = False
+    rx_done: list[float] = []  # delivery time (to exabgp's socket) of the last byte of each complete message we sent
+    if plan.get('ka_delay'):
+        spk.auto_keepalive = False
+
+        def delayed_ka(sess) -> None:
+            def later() -> None:
+                if sess.state != 'closed' and sess.sent_open and not sess.sent_ka:
+                    sess.sent_ka = True
+                    sess.send(R.keepalive(), cuts=[])
+                    rx_done.append(sess.conn._to_exa_last)
+
+            w.after(plan['ka_delay'], later)
+
+        spk.on_open.append(delayed_ka)
     w.boot(config_text([{'name': 'h1'}], [neighbor]))
     helper = w.procs.helper('h1')
-    rx_done: list[float] = []  # delivery time (to exabgp's socket) of the last byte of each complete message we sent
     st = {'sess': None, 'script_end': None, 'connected_at': None, 'open_sent_at': None, 'window_closed': []}
     probes = {'gaps_near_H': 0, 'hold_expired': 0, 'survived_to_end': 0, 'openwait_runs': 0, 'stalls': len(plan['stalls']), 'h_zero': int(H == 0)}
 
@@ -150,7 +165,8 @@ def execute(plan: dict) -> dict:
     def on_established(sess) -> None:
         if sess is not st['sess']:
             return
-        rx_done.append(w.loop.mono)
+        if not plan.get('ka_delay'):
+            rx_done.append(w.loop.mono)
         if plan['batch']:
             lines = ''.join(f'peer * announce route 10.{(i >> 8) % 250}.{i % 256}.0/24 next-hop 10.0.0.9 med {i}\n' for i in range(plan['batch']))
             w.after(0.5, lambda: helper.emit(lines.encode()))
